@@ -1018,6 +1018,19 @@ class Interp:
             return
         if f.kind == "bound":
             selfv, name = f.d
+            if selfv.kind == "ref":
+                from .values import HObj as _HObj
+                ho = st.heap.get(selfv.d)
+                if isinstance(ho, _HObj):
+                    import inspect as _inspect
+                    fnobj = _inspect.getattr_static(ho.cls, name)
+                    if isinstance(fnobj, (staticmethod, classmethod)):
+                        raise Unsupported("static/class method on heap instance")
+                    rc = self.resolve_repo_callable(fnobj)
+                    if rc is None:
+                        raise Unsupported(f"method {name} of {ho.cls.__name__} is not repo source")
+                    yield from self.call_closure(st, rc[0], [selfv] + list(args), kwargs)
+                    return
             h = self.handlers.get(("$method", name))
             if h is None:
                 raise Unsupported(f"method .{name} on {selfv!r}")
